@@ -44,6 +44,9 @@ fn num<T: std::fmt::Display>(r: Result<T, ArchiveError>) -> String {
 
 fn optstr(r: Result<Option<String>, ArchiveError>) -> String {
     match r {
+        // a string decoded lossily from bytes that are not Shift-JIS text (read_c_string through a pointer into raw
+        // data) has no faithful byte form: printed as LOSSY, compared as a wildcard (outside the properties' domain)
+        Ok(Some(s)) if s.contains('\u{FFFD}') => "ok:some:LOSSY".to_string(),
         Ok(Some(s)) => format!("ok:some:{}", show_sjis(&s)),
         Ok(None) => "ok:none".to_string(),
         Err(e) => err_kind(&e).to_string(),
